@@ -70,6 +70,8 @@ def build(v):
             setattr(inst, a['member'], attr_value(a))
     if kind == 'text_special':
         inst.text = 'a <&> "q" \'s\' ]]> b'
+    if kind == 'text_layout':
+        inst.text = '  line one\n   line two  \n\tline three \n'      # white space is content: kept as written
     if kind == 'text_unicode':
         inst.text = u'é ☃ 漢 \U0001F600'
     return inst
@@ -149,7 +151,7 @@ def main():
     if chk.tier != 'thorough':
         keep = []
         for c in cases:
-            if c['v']['kind'] in ('empty', 'allattrs', 'allchildren', 'foreign_child', 'foreign_attr', 'ownns_attr', 'ownns_attr_both') or not c['roundTrips'] \
+            if c['v']['kind'] in ('empty', 'allattrs', 'allchildren', 'foreign_child', 'foreign_attr', 'ownns_attr', 'ownns_attr_both', 'text_layout') or not c['roundTrips'] \
                     or chk.rng.random() < 0.35:
                 keep.append(c)
         cases = keep
@@ -182,8 +184,8 @@ def main():
                 chk.sample({'variant': v, 'serialised': out.get('text', '')[:200]}, limit=4)
     chk.cov['exhaustive'] = chk.tier == 'thorough'
     chk.cov['rule'] = ('variants of Schema.tla for each of the exported classes (nothing set, each attribute, all attributes, each child '
-                      'with 1..3 instances, all children, foreign child, foreign attribute, own-namespace look-alike of a declared attribute, XML-special and non-ASCII text): thorough '
-                      'all 13 480, quick the structural kinds plus a seeded third of the rest; distinct = distinct (class, variant)')
+                      'with 1..3 instances, all children, foreign child, foreign attribute, own-namespace look-alike of a declared attribute, XML-special, non-ASCII and multi-line / padded text): thorough '
+                      'all 14 634, quick the structural kinds plus a seeded third of the rest; distinct = distinct (class, variant)')
     chk.cov['classes'] = len(table())
     chk.assumptions = ['depth-1 instances (children are empty instances of their class); deeper nesting is reached through the same '
                        'generic code path', 'text content restricted to two classes of strings per class']
